@@ -13,6 +13,9 @@ var zzRefTree *tree.Tree
 var zzErrAt = -1
 
 func zz_readTree(infile string) (*tree.Tree, error) {
+	if infile == "none" {
+		return nil, errors.New("open none: no such file or directory")
+	}
 	if zzRefTree == nil {
 		return nil, errors.New("no reference tree")
 	}
